@@ -25,6 +25,12 @@ THEOREMS = [
     'CpProofs.C01.C01_started_once_legal',
     'CpProofs.C01.C01_status_of_request_legal',
     'CpProofs.C01.C01_trapped_is_500',
+    'CpProofs.C01.C01_error_path_is_5xx',
+    'CpProofs.C01.C01_unexpected_is_5xx',
+    'CpProofs.C01.C01_no_leak_full_false_F1',
+    'CpProofs.C01.C01_no_leak_full_false_F2',
+    'CpProofs.C01.C01_no_leak_full_false',
+    'CpProofs.C01.C01_no_leak_partial',
 ]
 TRUSTED_BASE = [
     'Python semantics transcribed by hand: try/except/finally nesting, exception replacement, generator protocol',
